@@ -285,8 +285,8 @@ void gen_tangents(const AlphaOpts & o, std::vector<Tan<R>> & out)
               ++ti;
             }
             if constexpr (std::is_same_v<R, ref::C1>) {
-              // scale exponent alphabet {0, +-1e-3, +-1, +-4.6}
-              static const double sc[4][4] = {{0, 0, 0, 0}, {1e-3, -1e-3, 1e-3, -1e-3}, {1, -1, 1, -1}, {4.6, -4.6, 1, -1}};
+              // scale exponent alphabet {0, +-1e-3, +-1, +-4.6, +-12} (scalings from 6e-6 to 1.6e5)
+              static const double sc[4][4] = {{0, 0, 0, 0}, {1e-3, -1e-3, 12, -12}, {1, -1, 1, -1}, {4.6, -4.6, 12, -12}};
               int mi = tm == 0 ? 0 : (tm == 1e-3 ? 1 : (tm == 1 ? 2 : 3));
               t.a[0] = sc[mi][tdir % 4];
             }
